@@ -32,15 +32,41 @@ def check(m, run):
     ra.axk_keyword_suffix(m, run, [m.func('fitting.interpolate_surface'), m.func('fitting.approximate_surface')])
     run.floor('AX1.helper-call-one-axis', 8, 'knot vector / coefficient matrix / basis calls of the surface fitters')
     run.floor('AXK.keyword-axis', 12, 'surface attribute assignments')
-    interp_surface(m, run)
-    params_surface(m, run)
+    # parameters, knots and the two-pass structure of surface interpolation are decided on symbolic / labelled data (FIT3, IS2), the linear
+    # solves exactly on symbolic matrices (LA3); the rules that read the index spelling corroborate
+    from .. import skel_drivers as _sd
+    from ..model import AnalysisError as _AE
+    n0 = len(run.obs)
+    _sd.fit3(m, run)
+    _sd.is2(m, run)
+    fit_ok = all(o.ok for o in run.obs[n0:])
+    with run.corroborating(fit_ok, 'FIT3/IS2', rules=('LY1.index-matches-layout', 'AV1.average-over-other-direction', 'AX1.return-order', 'KV1.clamped-by-construction', 'KV1.interior-count', 'LY4.knot-vector-length', 'AX4.axis-map-single-valued', 'LY3.list-matches-declared-sizes')):
+        interp_surface(m, run)
+        params_surface(m, run)
+        kv1(m, run)
     approx(m, run)
-    kv1(m, run)
     cm1(m, run)
     options_forwarded(m, run)
     from . import c16
+    n1 = len(run.obs)
+    try:
+        _sd.la3(m, run)
+        la_ok = all(o.ok for o in run.obs[n1:])
+    except _AE as ex:
+        run.error(str(ex))
+        la_ok = False
     c16.pv2(m, run)
-    c16.pv3(m, run, m.func('linalg.matrix_pivot'))
+    with run.corroborating(la_ok, 'LA3', rules=('PV3.rhs-permuted-like-the-matrix',)):
+        c16.pv3(m, run, m.func('linalg.matrix_pivot'))
+    # the solvers never write into the data they are given (a fit must leave its data points usable for the next fit)
+    from ..pure import Purity
+    P = Purity(m)
+    for key in ('linalg.lu_solve', 'linalg.lu_factor', 'linalg.lu_decomposition', 'linalg.forward_substitution', 'linalg.backward_substitution', 'linalg.matrix_multiply',
+                'linalg.matrix_transpose', 'linalg.matrix_pivot', 'fitting.interpolate_curve', 'fitting.interpolate_surface', 'fitting.approximate_curve', 'fitting.approximate_surface'):
+        f_ = m.func(key)
+        mp = [mu for mu in P.summary(f_).mutations if mu.root.startswith('param:') and mu.root[6:] not in ('kwargs',)]
+        run.ob('PU1.no-param-mutation', key, not mp, '; '.join('%s mutated by %s at `%s`' % (mu.root, mu.how[:80], norm(mu.node)[:70]) for mu in mp[:2]) or 'no parameter is mutated',
+               site(mp[0].func, mp[0].node) if mp else '')
     from . import c03
     c03.ho2(m, run)     # least-squares fitting evaluates N_i(u_k) with the single-function routine: half-open spans
     try:
@@ -319,3 +345,20 @@ def cm1(m, run):
             run.ob('CM1.collocation-row', fi.key, ok and okrow, 'row i holds N_{span-p..span}(params[i])' if ok and okrow else 'collocation row is not filled with the degree + 1 basis values at columns span-degree..span of the same parameter', site(fi, n))
     if not ok and not any(o.rule == 'CM1.collocation-row' for o in run.obs):
         raise AnalysisError('_build_coeff_matrix: row assignment not found')
+    # CM2: every data parameter is located exactly: the span function used for the collocation rows has no tolerance test (a search that
+    # snaps parameters within a tolerance of the last knot to the last span puts more than degree + 1 rows on the last columns when the
+    # data is densely sampled near the end, and the matrix becomes singular)
+    n_ = 0
+    for c in walk_no_nested(fi.node):
+        if isinstance(c, ast.Call) and 'find_span' in norm(c.func):
+            callee = m.resolve_callable(fi.mod, c.func)
+            if callee is None:
+                raise AnalysisError('_build_coeff_matrix: span search `%s` not resolved' % norm(c.func))
+            n_ += 1
+            tolt = [x for x in walk_no_nested(callee.node) if isinstance(x, ast.Compare) and any(isinstance(y, ast.Call) and norm(y.func) == 'abs' for y in ast.walk(x))]
+            run.ob('CM2.exact-span-for-collocation', '%s -> %s' % (fi.key, callee.key), not tolt,
+                   'the span search compares the parameter with the knots exactly' if not tolt else
+                   '%s decides `%s` with a tolerance: parameters within the tolerance of the last knot all land in the last span, so a data set sampled densely near its end '
+                   'yields a structurally singular collocation matrix' % (callee.key, norm(tolt[0])[:60]), site(fi, c))
+    if n_ == 0:
+        raise AnalysisError('_build_coeff_matrix: span search call not found')
